@@ -32,6 +32,26 @@ Histories are part of a case: one Simulator first serves the recorded requests o
 A directed corpus (fixed circuits: lossless, lossy, heralded with 0/1/2/3 photons and in != out
 modes, with and without loss) runs first and crosses every shape with every kind of invalid state
 in every position; the randomised stream follows.
+
+SESSIONS (third stream; directed corpus first, then random): a list of steps on one set of LIVE objects -
+circuits, lightworks Parameters, one or two long-lived Simulators:
+  * RETAINED RESULTS: every SimulationResult handed out stays on the books (class Retained: the very
+    object, a deep copy of its .array / inputs / outputs, the Fock formula evaluated independently on the
+    U_full it was computed for) and is re-checked after EVERY later step - calls of the same Simulator and
+    of other Simulators (a second long-lived one on the same circuit / a copy / another circuit, and a
+    fresh one per call) with the same shape and other states, the same shape on another circuit, another
+    shape (smaller and larger), rejected calls, edits of the circuit: unchanged, still equal to the
+    formula, result[in, out] / result[in][out] / result[in, None][out] coherent with .array, no memory
+    shared between the arrays of different calls, the client's argument objects (lists, States) unmodified;
+  * HISTORIES: the circuit a Simulator holds is edited IN PLACE between (and before the first of) its
+    simulate() calls - herald added (the states get shorter; requests of the old length must now be
+    rejected), second herald, heralded / lossy sub-circuit added, components appended, loss added
+    (U_full grows), Parameter.set, `sim.circuit` re-assigned to the same object / a copy / another circuit
+    and back; the Simulator is created at a random point of the construction of a generated circuit
+    (often right after Circuit(n)).  Every call is judged on the circuit AS IT IS at the time of the
+    call: rejection clause, Fock formula on the circuit's own current U_full and heralds, a fresh
+    Simulator on the same circuit, and the model run on the program that builds the current circuit
+    (a parametrised phase shifter enters that program with the Parameter's current value).
 """
 
 from __future__ import annotations
@@ -47,7 +67,7 @@ import numpy as np
 import circgen as cg
 import fockgen as fg
 import lightworks as lw
-from core import GQ, Ctx, ddmin, exc_class
+from core import CIRCLE, GQ, PYTH, Ctx, ddmin, exc_class
 from lightworks import emulator
 
 TRUSTED = [
@@ -56,7 +76,9 @@ TRUSTED = [
     "thewalrus.perm computes the permanent (cross-checked against the model's exact permanent on every case)",
     "float sqrt/factorial normalisation up to rounding (1e-9)",
 ]
-ASSUMPTIONS = ["circuits <= 5 user modes per level, total modes <= 10, <= 4 photons in the correspondence check"]
+ASSUMPTIONS = ["circuits <= 5 user modes per level, total modes <= 10, <= 4 photons in the correspondence check",
+               "sessions: <= 2 long-lived Simulators plus one fresh Simulator per call, <= 9 calls, U_full <= 12 modes; "
+               "the client never writes into a returned array"]
 
 KINDS = ["short", "long0", "longp", "full", "fullloss", "more", "fewer", "neg", "neg_keep",
          "bool", "bool_all", "float", "float_int", "float_pair"]
@@ -167,9 +189,9 @@ def add_duplicates(rng, states: list, ids: list, fresh: Ids, times: int) -> None
         ids.insert(q, oid)
 
 
-def gen_request(ctx: Ctx, rng, c, nph: int) -> dict:
+def gen_request(ctx: Ctx, rng, c, nph: int, fresh: Ids | None = None, p_bad: float = 0.3) -> dict:
     im = c.input_modes
-    fresh = Ids()
+    fresh = fresh or Ids()
     n_in = rng.choice([1, 1, 1, 2, 3, 3])
     inputs = [fg.rand_state(rng, im, nph) for _ in range(n_in)]
     in_ids = [fresh() for _ in inputs]
@@ -204,7 +226,7 @@ def gen_request(ctx: Ctx, rng, c, nph: int) -> dict:
     case = {"inputs": inputs, "outputs": outputs, "in_shape": in_shape, "out_shape": out_shape,
             "in_ids": in_ids, "out_ids": out_ids, "bad": None}
     # one invalid state
-    if rng.random() < 0.3:
+    if rng.random() < p_bad:
         side = rng.choice(["in", "out", "out"])
         kind = rng.choice(KINDS)
         st = corrupt(rng, kind, side, c, nph)
@@ -453,18 +475,28 @@ def valid_form(c, case: dict):
     return fix(case["inputs"]), fix(case["outputs"])
 
 
+def do_call(sim, req: dict, objs: dict):
+    """one simulate() call with the request's argument shapes; returns (result | None, observation, args)"""
+    args = (build_side(req["inputs"], req.get("in_ids"), req.get("in_shape", "list"), objs),
+            build_side(req["outputs"], req.get("out_ids"), req.get("out_shape", "list"), objs))
+    try:
+        res = sim.simulate(*args)
+        impl = {"inputs": [s.s for s in res.inputs], "outputs": [s.s for s in res.outputs],
+                "array": np.array(res.array)}
+    except Exception as e:  # noqa: BLE001
+        res, impl = None, {"error": exc_class(e)}
+    return res, impl, args
+
+
 def run_case(ctx: Ctx, case: dict) -> list[str]:
-    probs: list[str] = []
+    if "steps" in case:
+        return run_session(ctx, case)
     pool = fg.build_impl(case["prog"])
     if "c1" not in pool:
-        return probs
+        return []
     c = pool["c1"]
     if c.input_modes == 0:
-        return probs  # fock_basis(0, n) does not terminate in the code; excluded (documented)
-    ins, outs = case["inputs"], case["outputs"]
-    in_shape, out_shape = case.get("in_shape", "list"), case.get("out_shape", "list")
-    has_tuple = "tuple" in (in_shape, out_shape if outs is not None else "")
-    shapes = f"inputs as {in_shape}, outputs as {'None' if outs is None else out_shape}"
+        return []  # fock_basis(0, n) does not terminate in the code; excluded (documented)
     res = None
     try:
         # history: the same Simulator first serves the recorded requests on other circuits
@@ -494,12 +526,21 @@ def run_case(ctx: Ctx, case: dict) -> list[str]:
                              build_side(wo, case.get("out_ids"), "list", objs))
             except Exception:  # noqa: BLE001
                 pass
-        res = sim.simulate(build_side(ins, case.get("in_ids"), in_shape, objs),
-                           build_side(outs, case.get("out_ids"), out_shape, objs))
-        impl = {"inputs": [s.s for s in res.inputs], "outputs": [s.s for s in res.outputs],
-                "array": np.array(res.array)}
+        res, impl, _ = do_call(sim, case, objs)
     except Exception as e:  # noqa: BLE001
         impl = {"error": exc_class(e)}
+    return judge(ctx, c, case, res, impl, case["prog"], "c1")
+
+
+def judge(ctx: Ctx, c, case: dict, res, impl: dict, prog: list, cid: str, out: dict | None = None) -> list[str]:
+    """the property's clauses on one answered / rejected request (oracle) and the comparison with the model
+    (corr); `c` is the circuit as it is at the time of the call, `prog` the program that builds it for the
+    model; `out` receives the independently evaluated formula ("ref") of an accepted request"""
+    probs: list[str] = []
+    ins, outs = case["inputs"], case["outputs"]
+    in_shape, out_shape = case.get("in_shape", "list"), case.get("out_shape", "list")
+    has_tuple = "tuple" in (in_shape, out_shape if outs is not None else "")
+    shapes = f"inputs as {in_shape}, outputs as {'None' if outs is None else out_shape}"
     validity = request_validity(c.input_modes, ins, outs)
     a = impl.get("error", "ok")
     # ---- the rejection clause on the implementation alone
@@ -509,7 +550,7 @@ def run_case(ctx: Ctx, case: dict) -> list[str]:
     if validity == "valid" and a != "ok" and not (has_tuple and a == "TypeError"):
         probs.append(f"oracle: valid request rejected with {a} ({shapes}): inputs {ins} outputs {outs}")
         return probs
-    m = ctx.model.call({"op": "fock", "what": "sim", "prog": case["prog"], "id": "c1",
+    m = ctx.model.call({"op": "fock", "what": "sim", "prog": prog, "id": cid,
                         "inputs": [occ_json(s) for s in ins],
                         "outputs": None if outs is None else [occ_json(s) for s in outs]})
     b = m.get("error_class", "ok")
@@ -520,7 +561,7 @@ def run_case(ctx: Ctx, case: dict) -> list[str]:
         if has_tuple and a == "TypeError":
             ctx.count("tuple:rejected_as_TypeError")
         elif a != b:
-            probs.append(f"corr: simulate outcome impl={a} model={b} (malformed={case['bad']}, {shapes})")
+            probs.append(f"corr: simulate outcome impl={a} model={b} (malformed={case.get('bad')}, {shapes})")
         return probs
     if has_tuple:
         ctx.count("tuple:accepted_and_checked")
@@ -540,11 +581,13 @@ def run_case(ctx: Ctx, case: dict) -> list[str]:
     u = np.array(c.U_full)
     hin, hout = c.heralds["input"], c.heralds["output"]
     nloss = u.shape[0] - c.n_modes
+    refm = np.zeros(arr.shape, dtype=complex)
     for i, s in enumerate(impl["inputs"]):
         fs = fg.add_heralds(s, hin) + [0] * nloss
         for j, t in enumerate(impl["outputs"]):
             ft = fg.add_heralds(t, hout) + [0] * nloss
             ref = fg.ref_amplitude(u, fs, ft)
+            refm[i, j] = ref
             if abs(arr[i, j] - ref) > 1e-9:
                 probs.append(f"oracle: amplitude [{i},{j}] {s}->{t} = {arr[i, j]:.6g} but perm(U_full[{ft}|{fs}])/sqrt(fact) = {ref:.6g} ({shapes})")
                 return probs
@@ -560,6 +603,8 @@ def run_case(ctx: Ctx, case: dict) -> list[str]:
             if abs(arr[i, j] - mv) > 1e-9:
                 probs.append(f"corr: amplitude {s}->{t} impl={arr[i, j]:.6g} model={mv:.6g}")
                 return probs
+    if out is not None:
+        out["ref"] = refm
     if outs is None and nloss == 0 and not hin and impl["inputs"]:
         for i, s in enumerate(impl["inputs"]):
             nrm = float(np.sum(np.abs(arr[i, :]) ** 2))
@@ -569,6 +614,633 @@ def run_case(ctx: Ctx, case: dict) -> list[str]:
         if sorted(map(tuple, impl["outputs"])) != want:
             probs.append("oracle: outputs are not exactly the Fock basis of the photon number")
     return probs
+
+
+# --------------------------------------------------------------------------- sessions
+#
+# A session is a list of steps on ONE set of live objects (circuits, Parameters, Simulators):
+#   ["op", op]            a construction call on a circuit of the pool (circgen op; ["pps", cid, m, name, p]
+#                         is a phase shifter whose phase is the lightworks Parameter `name`)
+#   ["pset", name, p]     Parameter.set
+#   ["sim", S, cid]       S = Simulator(pool[cid])
+#   ["assign", S, cid]    S.circuit = pool[cid]
+#   ["call", S, request]  S.simulate(...) in the request's argument shapes
+# Every call is judged like a single case (rejection clause, Fock formula on the circuit's own U_full AS IT
+# IS NOW, model on the program that builds the circuit as it is now) and compared with a fresh Simulator;
+# every result handed out stays on the books (class Retained) and is re-checked after every later step.
+
+
+def _angle(p: str) -> float:
+    g = GQ.parse(p)
+    return math.atan2(float(g.im), float(g.re))
+
+
+class World:
+    """the live objects of a session and the program that builds the same circuits for the model (a
+    parametrised phase shifter appears there with the CURRENT value of its Parameter: lightworks shares
+    Parameters by reference through add() and copy())"""
+
+    def __init__(self) -> None:
+        self.pool: dict = {}
+        self.params: dict = {}
+        self.pvals: dict = {}
+        self.ops: list = []
+
+    def apply(self, op: list) -> str:
+        self.ops.append(op)
+        if op[0] == "pps":
+            _, cid, m, name, p = op[:5]
+            if name not in self.params:
+                self.params[name] = lw.Parameter(_angle(p))
+                self.pvals[name] = p
+            try:
+                self.pool[cid].ps(m, self.params[name])
+            except Exception as e:  # noqa: BLE001
+                return exc_class(e)
+            return "ok"
+        return cg.apply_op(self.pool, op)
+
+    def pset(self, name: str, p: str) -> None:
+        if name in self.params:
+            self.params[name].set(_angle(p))
+            self.pvals[name] = p
+
+    def model_prog(self) -> list:
+        return [cg.op_ps(op[1], op[2], GQ.parse(self.pvals[op[3]])) if op[0] == "pps" else op for op in self.ops]
+
+
+def _observe(c):
+    try:
+        return {"im": c.input_modes, "her": repr(c.heralds), "u": np.array(c.U_full)}
+    except Exception as e:  # noqa: BLE001
+        return {"im": None, "her": exc_class(e), "u": np.zeros((0, 0))}
+
+
+def _occ(x) -> str:
+    try:
+        return repr(list(x.s))
+    except Exception as e:  # noqa: BLE001
+        return exc_class(e)
+
+
+class Retained:
+    """every SimulationResult handed out: the very object, a deep copy of what it said at the time, the Fock
+    formula evaluated on the U_full it was computed for; and every argument object of the client"""
+
+    def __init__(self) -> None:
+        self.entries: list[dict] = []
+        self.client: list[dict] = []
+        self.rechecks = 0
+
+    def hand_in(self, args, what: str) -> None:
+        for side, a in zip(("inputs", "outputs"), args or ()):
+            if a is None:
+                continue
+            items = [a] if isinstance(a, lw.State) else list(a)
+            self.client.append({"container": a, "items": items, "occ": [_occ(x) for x in items],
+                                "what": f"the {side} argument of {what}"})
+
+    def keep(self, res, call: int, what: str, ref: np.ndarray) -> list[str]:
+        probs = []
+        raw = res.array
+        for e in self.entries:
+            if e["call"] == call:
+                continue
+            if res is e["res"]:
+                probs.append(f"oracle: retained results alias each other: {what} IS the very object returned as {e['what']}")
+            elif raw is e["raw"] or (raw.size and e["raw"].size and np.shares_memory(raw, e["raw"])):
+                probs.append(f"oracle: retained results alias each other: .array of {what} "
+                             + ("IS the very ndarray" if raw is e["raw"] else "shares memory with .array") + f" of {e['what']}")
+        n_i, n_o = ref.shape
+        pairs = [(i, j) for i in range(n_i) for j in range(n_o)]
+        if len(pairs) > 12:
+            pairs = [pairs[(k * len(pairs)) // 12] for k in range(12)]
+        self.entries.append({"res": res, "raw": raw, "copy": np.array(raw, copy=True), "call": call, "what": what,
+                             "ins": [_occ(x) for x in res.inputs], "outs": [_occ(x) for x in res.outputs],
+                             "in_states": [list(x.s) for x in res.inputs], "out_states": [list(x.s) for x in res.outputs],
+                             "ref": ref, "pairs": pairs, "live": True})
+        return probs
+
+    def recheck(self, after: str) -> list[str]:
+        probs = []
+        for e in self.entries:
+            if not e["live"]:
+                continue
+            self.rechecks += 1
+            res = e["res"]
+            try:
+                cur = res.array
+                ins, outs = [_occ(x) for x in res.inputs], [_occ(x) for x in res.outputs]
+            except Exception as x:  # noqa: BLE001
+                probs.append(f"oracle: retained result changed: {e['what']} raises {exc_class(x)} when read after {after}")
+                e["live"] = False
+                continue
+            if ins != e["ins"] or outs != e["outs"]:
+                probs.append(f"oracle: retained result changed: inputs/outputs of {e['what']} were {e['ins']}/{e['outs']}, "
+                             f"are {ins}/{outs} after {after}")
+                e["live"] = False
+                continue
+            cur = np.asarray(cur)
+            if cur.shape != e["copy"].shape or not np.array_equal(cur, e["copy"]):
+                d = float(np.max(np.abs(cur - e["copy"]))) if cur.shape == e["copy"].shape and cur.size else None
+                ok = cur.shape == e["ref"].shape and bool(np.all(np.abs(cur - e["ref"]) <= 1e-9))
+                probs.append(f"oracle: retained result changed: .array of {e['what']} is no longer what simulate() "
+                             f"returned (shape {e['copy'].shape} -> {cur.shape}, max difference {d}; it "
+                             f"{'still equals' if ok else 'no longer equals'} perm(U_full[out|in])/sqrt(fact) of its own "
+                             f"inputs/outputs) after {after}")
+                e["live"] = False
+                continue
+            if cur.size and not bool(np.all(np.abs(cur - e["ref"]) <= 1e-9)):
+                probs.append(f"oracle: retained result no longer equals the Fock formula on the U_full it was computed for: "
+                             f"{e['what']} after {after}")
+                e["live"] = False
+                continue
+            for i, j in e["pairs"]:
+                si, so = to_state(e["in_states"][i]), to_state(e["out_states"][j])
+                try:
+                    got = [res[si, so], res[si][so], res[si, None][so]]
+                except Exception as x:  # noqa: BLE001
+                    probs.append(f"oracle: retained result changed: indexing {e['what']} with [{e['ins'][i]}, {e['outs'][j]}] "
+                                 f"raises {exc_class(x)} after {after}")
+                    e["live"] = False
+                    break
+                if any(abs(g - cur[i, j]) > 1e-12 for g in got) or any(abs(g - e["ref"][i, j]) > 1e-9 for g in got):
+                    probs.append(f"oracle: retained result incoherent: {e['what']}: result[in, out] / result[in][out] / "
+                                 f"result[in, None][out] = {got} but .array[{i},{j}] = {cur[i, j]:.6g} and the formula gives "
+                                 f"{e['ref'][i, j]:.6g} after {after}")
+                    e["live"] = False
+                    break
+        for h in self.client:
+            a = h["container"]
+            now = [a] if isinstance(a, lw.State) else list(a)
+            if [_occ(x) for x in now] != h["occ"] or [_occ(x) for x in h["items"]] != h["occ"]:
+                probs.append(f"oracle: client objects modified: {h['what']} was {h['occ']}, is {[_occ(x) for x in now]} after {after}")
+                h["items"], h["occ"] = now, [_occ(x) for x in now]
+        return probs
+
+
+def run_session(ctx: Ctx, case: dict, tags: set | None = None) -> list[str]:
+    tags = tags if tags is not None else set()
+    w = World()
+    sims: dict = {}
+    objs: dict = {}
+    led = Retained()
+    ncall = 0
+    shapes_seen: list = []  # (simulator, array shape) of the retained results
+    for k, st in enumerate(case["steps"]):
+        kind = st[0]
+        if kind == "op":
+            w.apply(st[1])
+            after = f"step {k}: {st[1][0]}(...) on circuit {st[1][1]}"
+        elif kind == "pset":
+            w.pset(st[1], st[2])
+            after = f"step {k}: Parameter.set"
+        elif kind in ("sim", "assign"):
+            name, cid = st[1], st[2]
+            c = w.pool.get(cid)
+            if c is None or (kind == "assign" and name not in sims):
+                continue
+            try:
+                if kind == "sim":
+                    sims[name] = {"sim": emulator.Simulator(c), "calls": 0}
+                elif sims[name]["sim"] is not None:
+                    sims[name]["sim"].circuit = c
+                    tags.add("session:circuit_reassigned:" + ("same_object" if sims[name]["cid"] == cid else "other_circuit"))
+            except Exception as e:  # noqa: BLE001
+                sims[name] = {"sim": None, "error": exc_class(e), "calls": 0}
+            sims[name]["cid"] = cid
+            sims[name]["seen"] = _observe(c)
+            after = f"step {k}: {'Simulator(' + cid + ')' if kind == 'sim' else 'Simulator.circuit = ' + cid}"
+        elif kind == "call":
+            name, req = st[1], st[2]
+            S = sims.get(name)
+            if S is None:
+                continue
+            cid = S["cid"]
+            c = w.pool[cid]
+            if c.input_modes == 0:
+                continue  # fock_basis(0, n) does not terminate in the code; excluded (documented)
+            ncall += 1
+            what = f"call #{ncall} (step {k}) on Simulator {name} holding circuit {cid}"
+            now, seen = _observe(c), S["seen"]
+            when = "before_first_call" if S["calls"] == 0 else "between_calls"
+            if now["im"] != seen["im"]:
+                tags.add(f"session:circuit_edited_in_place_{when}:number_of_user_modes_changed")
+            if now["her"] != seen["her"]:
+                tags.add(f"session:circuit_edited_in_place_{when}:heralds_changed")
+            if now["u"].shape != seen["u"].shape:
+                tags.add(f"session:circuit_edited_in_place_{when}:U_full_changed_size")
+            elif not np.array_equal(now["u"], seen["u"]):
+                tags.add(f"session:circuit_edited_in_place_{when}:U_full_changed_entries")
+            S["seen"] = now
+            S["calls"] += 1
+            if S["sim"] is None:
+                res, impl, args = None, {"error": S["error"]}, None
+            else:
+                res, impl, args = do_call(S["sim"], req, objs)
+            led.hand_in(args, what)
+            out: dict = {}
+            probs = judge(ctx, c, req, res, impl, w.model_prog(), cid, out)
+            if res is not None and not probs and "ref" in out:
+                # a fresh Simulator on the circuit as it is now, with State objects of its own
+                fres, fimpl, _ = do_call(emulator.Simulator(c), req, {})
+                if "error" in fimpl or fimpl["array"].shape != impl["array"].shape \
+                        or not bool(np.all(np.abs(fimpl["array"] - impl["array"]) <= 1e-9)) \
+                        or fimpl["outputs"] != impl["outputs"]:
+                    probs.append(f"oracle: a fresh Simulator on the same circuit answers differently from the long-lived one: "
+                                 f"{fimpl.get('error') or 'amplitudes / outputs differ'}")
+                shp = impl["array"].shape
+                if any(n == name and x == shp for n, x in shapes_seen):
+                    tags.add("retained:later_call_same_shape_same_simulator")
+                if any(n not in (name, "<fresh>") and x == shp for n, x in shapes_seen):
+                    tags.add("retained:later_call_same_shape_other_simulator")
+                if any(x != shp for n, x in shapes_seen):
+                    tags.add("retained:later_call_other_shape")
+                shapes_seen.append((name, shp))
+                shapes_seen.append(("<fresh>", shp))
+                probs += led.recheck(what)  # what the call did to the results handed out before, first
+                probs += led.keep(res, ncall, "the result of " + what, out["ref"])
+                if fres is not None:
+                    probs += led.keep(fres, -ncall, f"the result of the same request on a fresh Simulator({cid}) at step {k}",
+                                      out["ref"])
+            elif impl.get("error"):
+                tags.add("session:rejected_call_between_retained_results" if led.entries else "session:rejected_call")
+            if probs:
+                return [f"{p}  [session: {what}]" for p in probs]
+            after = what
+        else:
+            raise AssertionError(f"unknown session step {kind}")
+        probs = led.recheck(after)
+        if probs:
+            return probs
+    tags.add(f"retained:results_on_the_books_at_the_end:{min(len(led.entries), 12) // 4 * 4}+")
+    ctx.count("retained:rechecks_of_a_result_after_a_later_step", led.rechecks)
+    return []
+
+
+class SessionBuilder:
+    """writes a session while running it on the implementation, so that every request fits the circuit as it
+    is at that step (number of user modes, photon budget of the exact model)"""
+
+    def __init__(self, ctx: Ctx, rng, cap: int = 5) -> None:
+        self.ctx, self.rng, self.cap = ctx, rng, cap
+        self.w = World()
+        self.steps: list = []
+        self.sims: dict = {}
+        self.last: dict = {}
+        self.lastshape = None
+        self.fresh = Ids()
+        self.ncalls = 0
+        self.n1 = 0
+        self.hin: set = set()
+        self.hout: set = set()
+        self.nsub = 0
+
+    def op(self, op: list) -> str:
+        r = self.w.apply(op)
+        self.steps.append(["op", op])
+        if op[0] == "new" and op[1] == "c1":
+            self.n1 = op[2]
+        if op[0] == "herald" and op[1] == "c1" and r == "ok":
+            self.hin.add(op[3])
+            self.hout.add(op[4])
+        return r
+
+    def ops(self, ops: list) -> None:
+        for o in ops:
+            if o[0] == "pset":
+                self.pset(o[1], o[2])
+            else:
+                self.op(o)
+
+    def pset(self, name: str, p: str) -> None:
+        self.w.pset(name, p)
+        self.steps.append(["pset", name, p])
+
+    def sim(self, name: str, cid: str) -> None:
+        self.sims[name] = cid
+        self.steps.append(["sim", name, cid])
+
+    def assign(self, name: str, cid: str) -> None:
+        self.sims[name] = cid
+        self.steps.append(["assign", name, cid])
+
+    def circuit(self, name: str):
+        return self.w.pool.get(self.sims.get(name))
+
+    def call(self, name: str, how: str = "random", n_in: int = 2, n_out: int = 3, nph: int | None = None,
+             p_bad: float = 0.12) -> bool:
+        rng = self.rng
+        c = self.circuit(name)
+        if c is None or c.input_modes == 0 or fg.herald_photons(c) > self.cap - 1:
+            return False
+        if np.array(c.U_full).shape[0] > 12:
+            return False
+        im = c.input_modes
+        budget = self.cap - 1 - fg.herald_photons(c)
+        nph = min(2 if nph is None else nph, budget)
+        if how == "repeat" and name not in self.last:
+            how = "random"
+        if how == "same" and self.lastshape is None:
+            how = "explicit"
+        if how == "same":
+            n_in, n_out, was_none, key = self.lastshape
+            if was_none and key == (im, nph):
+                how = "none"
+            elif n_out <= 10:
+                how = "explicit"
+            else:
+                how = "none"
+        if how == "repeat":
+            req = copy.deepcopy(self.last[name])
+        elif how == "random":
+            req = gen_request(self.ctx, rng, c, nph, fresh=self.fresh, p_bad=p_bad)
+            req.pop("warm", None)
+            req.pop("bad", None)
+        else:
+            ins = [fg.rand_state(rng, im, nph) for _ in range(n_in)]
+            outs = None if how == "none" else [fg.rand_state(rng, im, nph) for _ in range(n_out)]
+            req = {"inputs": ins, "outputs": outs, "in_shape": "list", "out_shape": "none" if outs is None else "list",
+                   "in_ids": [self.fresh() for _ in ins], "out_ids": None if outs is None else [self.fresh() for _ in outs]}
+        self.steps.append(["call", name, req])
+        self.ncalls += 1
+        self.last[name] = req
+        if request_validity(im, req["inputs"], req["outputs"]) == "valid":
+            k = photons_of(req["inputs"][0])
+            no = math.comb(im + k - 1, k) if req["outputs"] is None else len(req["outputs"])
+            self.lastshape = (len(req["inputs"]), no, req["outputs"] is None, (im, k))
+        return True
+
+    def case(self, **kw) -> dict:
+        return {"steps": self.steps, **kw}
+
+
+def rename(prog: list, cid: str) -> list:
+    """the corpus bodies (one circuit, no sub-circuits) built under another id"""
+    return [[op[0], cid, *op[2:]] for op in prog]
+
+
+def rand_edit(rng, b: SessionBuilder) -> list:
+    """one in-place edit of circuit c1 (a list of ops / pset steps)"""
+    n = b.n1
+    c = b.w.pool["c1"]
+    free_i = [m for m in range(n) if m not in b.hin]
+    free_o = [m for m in range(n) if m not in b.hout]
+    room = b.cap - 1 - fg.herald_photons(c)
+    kinds = ["herald"] * 4 + ["loss"] * 2 + ["prim"] * 2 + ["pps", "pset", "pset", "addher", "addher", "addsub"]
+    for _ in range(6):
+        kind = rng.choice(kinds)
+        if kind == "herald" and len(free_i) >= 2 and free_o:
+            i = rng.choice(free_i)
+            o = i if (i in free_o and rng.random() < 0.4) else rng.choice(free_o)
+            return [["herald", "c1", rng.choice([k for k in (0, 1, 1, 2, 3) if k <= max(0, room - 1)]), i, o]]
+        if kind == "loss":
+            a, bb = rng.choice([p for p in PYTH if p[1] != 0 and p[0] != 0])
+            return [cg.op_loss("c1", rng.randrange(n), a, bb)]
+        if kind == "prim":
+            return [cg.rand_prim_op(rng, "c1", n, allow_loss=True)]
+        if kind == "pps":
+            ops = [["pps", "c1", rng.randrange(n), f"p{len(b.w.params) + 1}", rng.choice(CIRCLE).s()]]
+            if n >= 2:
+                m1, m2 = rng.sample(range(n), 2)
+                cc, ss = rng.choice(PYTH)
+                ops.append(cg.op_bs("c1", m1, m2, cc, ss, rng.choice(["Rx", "H"])))
+            return ops
+        if kind == "pset" and b.w.params:
+            name = rng.choice(sorted(b.w.params))
+            return [["pset", name, rng.choice([p.s() for p in CIRCLE if p.s() != b.w.pvals[name]])]]
+        if kind in ("addher", "addsub") and n >= 2:
+            b.nsub += 1
+            sid = f"s{b.nsub}"
+            sz = rng.choice([2, 3]) if kind == "addher" else 2
+            ops = [["new", sid, sz]]
+            for m in range(sz - 1):
+                cc, ss = rng.choice(PYTH)
+                ops.append(cg.op_bs(sid, m, m + 1, cc, ss, rng.choice(["Rx", "H"]),
+                                    rng.choice([None, None, (Fraction(4, 5), Fraction(3, 5))])))
+            q = sz
+            if kind == "addher":
+                hi, ho = rng.randrange(sz), rng.randrange(sz)
+                ops.append(["herald", sid, rng.choice([k for k in (0, 1, 1, 2) if k <= max(0, room - 1)]), hi, ho])
+                q = sz - 1
+            ops.append(["add", "c1", sid, rng.randint(0, n - q), rng.random() < 0.5])
+            return ops
+    return [cg.rand_prim_op(rng, "c1", n, allow_loss=True)]
+
+
+def gen_session(ctx: Ctx, rng) -> dict:
+    """a circuit from the tree generator is BUILT WHILE a long-lived Simulator (created at a random point of
+    the construction, often right after Circuit(n)) is in use, then edited further in place; a second
+    Simulator on the same circuit / a copy / a sub-circuit, re-assignments of .circuit"""
+    prog = bump_heralds(rng, fg.gen_circuit(ctx, rng, max_depth=2))
+    b = SessionBuilder(ctx, rng, cap=6 if ctx.thorough else 5)
+    k0 = rng.choice([1, 1, rng.randint(1, min(3, len(prog))), rng.randint(1, len(prog))])
+    for op in prog[:k0]:
+        b.op(op)
+    b.sim("A", "c1")
+    second = rng.random() < 0.45
+    if second and rng.random() < 0.5:
+        b.sim("B", "c1")
+    if rng.random() < 0.6:
+        b.call("A", rng.choice(["random", "explicit", "none"]), n_in=rng.randint(1, 3), n_out=rng.randint(1, 4),
+               nph=rng.choice([1, 2, 2, 3]))
+    queue = [[op] for op in prog[k0:]]
+    extra = rng.randint(1, 3)
+    maxcalls = 7
+    while (queue or extra > 0) and b.ncalls < maxcalls:
+        if queue:
+            edit = queue.pop(0)
+        else:
+            edit = rand_edit(rng, b)
+            extra -= 1
+        b.ops(edit)
+        touches = any(o[0] == "pset" or (o[1] == "c1" and o[0] != "new") for o in edit)
+        if not touches or rng.random() < 0.35:
+            continue
+        r = rng.random()
+        if r < 0.12:
+            b.assign("A", "c1")  # the same object once more
+        elif r < 0.2:
+            b.op(["copy", "k1", "c1"])
+            b.assign("A", "k1")
+            b.call("A", "same", nph=rng.choice([1, 2, 2, 3]))
+            b.assign("A", "c1")
+        how = rng.choice(["random", "same", "same", "same", "none", "repeat"])
+        b.call("A", how, n_in=rng.randint(1, 3), n_out=rng.randint(1, 4), nph=rng.choice([0, 1, 2, 2, 3]))
+        if second and rng.random() < 0.6:
+            if "B" not in b.sims:
+                subs = [cid for cid, x in b.w.pool.items() if cid != "c1" and x.input_modes > 0]
+                if subs and rng.random() < 0.4:
+                    b.sim("B", rng.choice(sorted(subs)))
+                elif rng.random() < 0.5:
+                    b.op(["copy", "k2", "c1"])
+                    b.sim("B", "k2")
+                else:
+                    b.sim("B", "c1")
+            b.call("B", rng.choice(["same", "same", "random"]), nph=rng.choice([1, 2, 2]))
+            if rng.random() < 0.5:
+                b.call("A", "same", nph=rng.choice([1, 2, 2]))
+    return b.case()
+
+
+def corpus_sessions(ctx: Ctx):
+    """directed sessions: (1) results retained across later calls of the same / another Simulator with the same
+    and with another shape, the same and another circuit; (2) every kind of in-place edit of the circuit a
+    long-lived Simulator holds, with and without a call before the edit"""
+    rng = random.Random(f"C03-corpus-sessions-{ctx.seed}")
+    F = Fraction
+    base = dict(corpus_circuits())
+    body3 = {False: base["lossless"], True: base["lossy"]}
+    body4 = {False: base["herald0"][:-1], True: base["herald1_lossy"][:-1]}
+    ph = [p.s() for p in CIRCLE]
+
+    # ---- (1) retained results
+    for lossy in (False, True):
+        b = SessionBuilder(ctx, rng)
+        b.ops(body3[lossy])
+        b.sim("A", "c1")
+        b.call("A", "explicit", 2, 3)
+        b.call("A", "same")
+        b.call("A", "same")
+        b.call("A", "none", 2)
+        b.call("A", "none", 2)
+        b.call("A", "explicit", 1, 1)
+        b.call("A", "same")
+        b.call("A", "explicit", 3, 2, nph=1)
+        b.call("A", "same", nph=1)
+        yield b.case(corpus=f"retained:one_simulator{'_lossy' if lossy else ''}")
+    for second in ("same_circuit", "copy", "other_circuit"):
+        b = SessionBuilder(ctx, rng)
+        b.ops(base["herald1_lossy"])
+        b.sim("A", "c1")
+        if second == "copy":
+            b.op(["copy", "d1", "c1"])
+        elif second == "other_circuit":
+            b.ops(rename(base["herald2_lossy"], "d1"))
+        other = "c1" if second == "same_circuit" else "d1"
+        b.sim("B", other)
+        b.call("A", "explicit", 2, 3, nph=1)
+        b.call("B", "same", nph=1)
+        b.call("A", "none", 1, nph=1)
+        b.call("B", "same", nph=1)
+        b.call("B", "repeat")
+        b.call("A", "repeat")
+        yield b.case(corpus=f"retained:two_simulators:{second}")
+        # one Simulator moved between the two circuits, the same request on both
+        b = SessionBuilder(ctx, rng)
+        b.ops(base["herald1_lossy"])
+        if second == "copy":
+            b.op(["copy", "d1", "c1"])
+        elif second == "other_circuit":
+            b.ops(rename(base["herald2_lossy"], "d1"))
+        b.sim("A", "c1")
+        b.call("A", "explicit", 2, 2, nph=1)
+        b.assign("A", other)
+        b.call("A", "repeat")
+        b.call("A", "same", nph=1)
+        b.assign("A", "c1")
+        b.call("A", "repeat")
+        yield b.case(corpus=f"retained:circuit_reassigned:{second}")
+
+    # ---- (2) in-place edits of the circuit a long-lived Simulator holds
+    sub = [["new", "s1", 2], cg.op_bs("s1", 0, 1, F(3, 5), F(4, 5), "Rx")]
+    sub3 = [["new", "s1", 3], cg.op_bs("s1", 0, 1, F(3, 5), F(4, 5), "Rx"), cg.op_bs("s1", 1, 2, F(5, 13), F(12, 13), "H")]
+    edits = [(f"herald{k}@{hi}->{ho}", [["herald", "c1", k, hi, ho]])
+             for k, hi, ho in [(0, 1, 2), (1, 3, 0), (2, 0, 2), (1, 1, 1), (3, 2, 1), (1, 0, 0), (1, 3, 3)]]
+    edits += [
+        ("two_heralds", [["herald", "c1", 0, 0, 3], ["herald", "c1", 1, 2, 0]]),
+        ("loss", [cg.op_loss("c1", 1, F(4, 5), F(3, 5))]),
+        ("bs", [cg.op_bs("c1", 1, 2, F(3, 5), F(4, 5), "H")]),
+        ("bs_with_loss", [cg.op_bs("c1", 2, 3, F(8, 17), F(15, 17), "Rx", (F(12, 13), F(5, 13)))]),
+        ("swaps", [["swaps", "c1", [[0, 2], [2, 3], [3, 0]]]]),
+        ("unitary_block", [["unitary", "s1", cg.mat_json(cg.exact_unitary(random.Random(7), 2, 4))], ["add", "c1", "s1", 1, False]]),
+        ("parameter_set", [["pset", "p1", ph[3]]]),
+        ("parameter_set_back_to_equal_value", [["pset", "p1", ph[3]], ["pset", "p1", ph[1]]]),
+        ("add_heralded_sub", sub + [["herald", "s1", 1, 0, 1], ["add", "c1", "s1", 2, False]]),
+        ("add_heralded_sub_grouped", sub + [["herald", "s1", 1, 1, 0], ["add", "c1", "s1", 0, True]]),
+        ("add_heralded_sub_vacuum", sub3 + [["herald", "s1", 0, 1, 1], ["add", "c1", "s1", 1, True]]),
+        ("add_lossy_sub", [*sub, cg.op_loss("s1", 0, F(3, 5), F(4, 5)), ["add", "c1", "s1", 3 - 1, False]]),
+        ("add_heralded_sub_then_herald", sub + [["herald", "s1", 1, 0, 1], ["add", "c1", "s1", 2, False], ["herald", "c1", 1, 0, 3]]),
+    ]
+    param = [["pps", "c1", 1, "p1", ph[1]], cg.op_bs("c1", 1, 2, F(4, 5), F(3, 5), "Rx")]
+    for name, edit in edits:
+        for prior in (False, True):
+            for lossy in (False, True):
+                if lossy and not prior and not name.startswith(("herald", "two", "add_heralded_sub")):
+                    continue
+                b = SessionBuilder(ctx, rng)
+                b.ops(body4[lossy] + (param if "parameter" in name else []))
+                b.sim("A", "c1")
+                if prior:
+                    b.call("A", "explicit", 2, 3, nph=2)
+                b.ops(edit)
+                b.call("A", "none", 2, nph=2)
+                b.call("A", "explicit", 2, 3, nph=2)
+                if prior:
+                    b.steps.append(["call", "A", copy.deepcopy(b.steps[[s[0] for s in b.steps].index("call")][2])])
+                if len(b.hin) + 2 <= b.n1:
+                    fi = [m for m in range(b.n1) if m not in b.hin]
+                    fo = [m for m in range(b.n1) if m not in b.hout]
+                    b.op(["herald", "c1", 1, fi[-1], fo[0]])
+                    b.call("A", "same", nph=1)
+                b.assign("A", "c1")
+                b.call("A", "same", nph=1)
+                yield b.case(corpus=f"in_place:{name}:{'call_before_edit' if prior else 'no_call_before_edit'}"
+                             f"{':lossy' if lossy else ''}")
+
+
+def session_tags(case: dict) -> set:
+    tags = set()
+    for st in case["steps"]:
+        if st[0] == "op" and st[1][0] in ("herald", "loss", "add", "pps", "copy"):
+            tags.add(f"session:op:{st[1][0]}")
+        elif st[0] == "pset":
+            tags.add("session:op:Parameter.set")
+    return tags
+
+
+def handle_session(ctx: Ctx, case: dict, index: int) -> None:
+    tags: set = set()
+    probs = run_session(ctx, case, tags)
+    calls = [st[2] for st in case["steps"] if st[0] == "call"]
+    ctx.count("session:calls", len(calls))
+    ctx.count(f"session:number_of_simulators:{len({st[1] for st in case['steps'] if st[0] == 'sim'})}")
+    for t in sorted(tags | session_tags(case)):
+        ctx.count(t)
+    nontriv = sum(1 for r in calls if r["inputs"] and photons_of(r["inputs"][0]) >= 2) >= 1 and len(calls) >= 2
+    ctx.case(json.dumps(case, default=str), nontriv, sample=case if index < 1 else None)
+    if not probs:
+        return
+    ctx.count("cases_with_problems")
+
+    def still(sub):
+        return bool(run_session(ctx, {**case, "steps": sub}))
+
+    small = ddmin(case["steps"], still, max_tests=250)
+    scase = {**case, "steps": small}
+    # then the states of each remaining request
+    for st in scase["steps"]:
+        if st[0] != "call":
+            continue
+        for key, ikey, skey in (("inputs", "in_ids", "in_shape"), ("outputs", "out_ids", "out_shape")):
+            req = st[2]
+            if req.get(key) is None or req.get(skey, "list") == "single":
+                continue
+            k = 0
+            while k < len(req[key]) and len(req[key]) > 1:
+                ids = req.get(ikey) or [None] * len(req[key])
+                saved = (req[key], req.get(ikey))
+                req[key], req[ikey] = req[key][:k] + req[key][k + 1:], ids[:k] + ids[k + 1:]
+                if run_session(ctx, scase):
+                    continue
+                req[key], req[ikey] = saved
+                k += 1
+    sprobs = run_session(ctx, scase) or probs
+    oracle = [p for p in sprobs if p.startswith("oracle")]
+    if oracle:
+        ctx.violation(oracle[0], {"case": scase, "problems": sprobs}, sig={"kind": oracle[0][8:30]})
+    else:
+        ctx.disagreement(sprobs[0], {"case": scase, "problems": sprobs})
 
 
 # --------------------------------------------------------------------------- run
@@ -666,7 +1338,11 @@ def run(ctx: Ctx) -> None:
                 "equal States as same / distinct objects — x every kind of invalid state x position), then circuits "
                 "from the C02 tree generator (heralds in != out with 0-3 photons, loss, groups), requests with 0-4 "
                 "photons (bunched, vacuum) in random shapes, ~30% with one invalid state; non-trivial = >= 2 photons "
-                "in a circuit with a beam splitter or unitary block; distinct = distinct (program, request)")
+                "in a circuit with a beam splitter or unitary block; distinct = distinct (program, request).  "
+                "Sessions (directed, then random): one or two long-lived Simulators, the circuit edited in place "
+                "between calls (heralds, heralded / lossy sub-circuits, components, loss, Parameter.set), .circuit "
+                "re-assigned, <= 9 calls each judged on the circuit as it is at the time and against a fresh "
+                "Simulator; every result handed out is retained and re-checked after every later step")
     k = 0
     for case in corpus(ctx):
         if ctx.out_of_time():
@@ -680,8 +1356,20 @@ def run(ctx: Ctx) -> None:
         ctx.count("corpus_history_cases")
         handle(ctx, case, 10 + k)
         k += 1
+    for case in corpus_sessions(ctx):
+        if ctx.out_of_time():
+            break
+        ctx.count("corpus_session_cases")
+        handle_session(ctx, case, k)
+        k += 1
     N = ctx.n(220, 5000)
     rng = ctx.rng
+    srng = random.Random(f"C03-sessions-{ctx.seed}")
+    for i in range(ctx.n(200, 2500)):
+        if ctx.out_of_time():
+            break
+        ctx.count("random_session_cases")
+        handle_session(ctx, gen_session(ctx, srng), 10 + i)
     for i in range(N):
         if ctx.out_of_time():
             break
